@@ -22,9 +22,9 @@ def run(ctx):
         "the alphabet of a shipped matrix is the 23 letters ARNDCQEGHILKMFPSTWYVBZX plus Gap",
     ]
     if ctx.tier == "thorough":
-        c08.leg_M(ctx, ["MC_Align_C09_t", "MC_Align_C09_t2"])
+        c08.leg_M(ctx, ["MC_Align_C09_t", "MC_Align_C09_t2", "MC_Align_C09_pos"])
     else:
-        c08.leg_M(ctx, ["MC_Align_C09"])
+        c08.leg_M(ctx, ["MC_Align_C09", "MC_Align_C09_pos"])
     c08.must_refute(ctx, "MC_Align_dropins", "ZeroOpenOptimal")
     events, bad = c08.leg_T(ctx, "C09")
     tabs = [e for e in events if e["op"] == "table" and e["kind"] == "shipped"]
